@@ -161,7 +161,10 @@ pub fn check_pca(c: &Case, obs: &mut Obs) {
         Err(m) => {
             if !in_range && m.contains("NaN values in array") {
                 obs.skip("beyond_singular_ratio_1e3:fit_panic_nan");
-            } else if m.contains("NaN values in array") && m.contains("linfa-linalg") && m.contains("eigh.rs") {
+            } else if m.starts_with("NaN values in array") && {
+                let loc = m.rsplit(" @ ").next().unwrap_or("");
+                loc.is_empty() || (loc.contains("linfa-linalg") && loc.contains("eigh.rs"))
+            } {
                 // recognised by the exact panic (message and site): LOBPCG kept iterating on round-off until its
                 // Rayleigh–Ritz matrices contained NaN. Any other panic of fit is `panic:fit`.
                 obs.class_if(small_problem, "fit_panic_nan:5k>p");
